@@ -112,12 +112,12 @@ class Spec(core.PropSpec):
                 out.ev("refused", k, field)
                 continue
             except Exception as e:
-                out.violate("C06:raises:" + type(e).__name__, f"{field},{shape}", f"k={k} {field}={val}: {type(e).__name__}: {e}")
+                out.violate("C06:raises:" + type(e).__name__, field, f"k={k} {field}={val} ({shape}): {type(e).__name__}: {e}")
                 continue
             accepted += 1
             out.count("resume_accepted")
             out.ev("resume", k, field, core.digest(res)[:16])
-            site = f"{field},{shape}"
+            site = field
             if not term:
                 out.violate("C06:no-termination", site, f"k={k} {field}={val}: more than {len(suffix) + 50} indices")
                 continue
@@ -129,7 +129,7 @@ class Spec(core.PropSpec):
                     cls = "C06:main-suffix-mismatch" if ge[:1] == se[:1] else "C06:wrong-epoch-announced"
                 else:
                     cls = "C06:side-pass-suffix-mismatch"
-                out.violate(cls, site, f"k={k} {field}={val}: {d}")
+                out.violate(cls, site, f"k={k} {field}={val} ({shape}): {d}")
         if n_ep > 1:
             out.tags.append("has-checkpoint-before-budget")
         if any(c["ens"] for c in w["configs"]):
